@@ -140,16 +140,25 @@ static void mode_recv(vf::Ctx& c)
 	}
 	c.desc(d);
 	int sv[2];
-	if (socketpair(AF_UNIX, SOCK_STREAM, 0, sv) != 0) { c.inconclusive("socketpair"); return; }
+	// every 16th case runs with stdin closed, so that the library's end of the connection is descriptor 0
+	int savedStdin = -1;
+	bool lowFd = c.idx % 16 == 6;
+	if (lowFd) { savedStdin = dup(0); close(0); c.count("recv.library_socket_is_descriptor_0"); }
+	if (socketpair(AF_UNIX, SOCK_STREAM, 0, sv) != 0) { if (lowFd && savedStdin >= 0) { dup2(savedStdin, 0); close(savedStdin); } c.inconclusive("socketpair"); return; }
 	std::vector<std::string> got;
-	std::atomic<int> negative(0), done(0);
+	std::atomic<int> negative(0), done(0), stringFormDiffers(0);
 	std::thread rx([&]() {
 		try {
 			WebSocket ws(Socket(sv[0]), aslIsClient);
 			while (!ws.closed()) {
 				WebSocketMsg m = ws.receive();
 				if (m.length() < 0) { negative++; break; }
-				if (m.length() > 0) got.push_back(std::string(*m, m.length()));
+				if (m.length() > 0) {
+					got.push_back(std::string(*m, m.length()));
+					// the documented `String msg = ws.receive();` form carries the same bytes (a String is counted, zero bytes included)
+					String asString = m;
+					if (asString.length() != m.length() || memcmp(*asString, *m, (size_t)m.length()) != 0) stringFormDiffers++;
+				}
 			}
 		} catch (std::bad_alloc&) {}
 		done = 1;
@@ -173,7 +182,9 @@ static void mode_recv(vf::Ctx& c)
 	close(fd);
 	if (!done) { rx.detach(); c.fail_exit("recv.receive-does-not-return-after-peer-closed", "90 s after the peer closed"); }
 	rx.join();
+	if (lowFd && savedStdin >= 0) { dup2(savedStdin, 0); close(savedStdin); }
 	if (negative) c.fail("recv.message-of-negative-length", "");
+	if (stringFormDiffers) c.fail("recv.string-form-differs", vf::fmt("%d messages: `String s = ws.receive()` does not carry the bytes of the message", (int)stringFormDiffers));
 	if (got.size() != sent.size()) {
 		std::string lens;
 		for (auto& g : got) lens += vf::fmt("%d ", (int)g.size());
